@@ -398,6 +398,44 @@ example : (prepare ⟨1, 1, 1, cellOfRows [[none]]⟩).toOption = some none := b
 example : ∃ p, prepare ⟨1, 2, 1, cellOfRows [[none, B 1]]⟩ = .ok (some p) ∧ p.null = 2 ∧ p.shown 0 0 = 1 ∧ p.shown 0 1 = 1 :=
   ⟨_, rfl, rfl, rfl, rfl⟩
 
+-- [audit] non-vacuity: the STRUCTURAL half of the solver contract (`Ans.Valid`) is satisfiable for every shape
+-- (identity assignment on the first `min n m` indices).  That a MINIMISER exists for every matrix (i.e. that
+-- `Contract d a` is satisfiable for every `d`) is not proved anywhere; it is only exhibited on the concrete inputs
+-- `exComplete`, `exSparse` above and `exBool` below.
+example (n m : Nat) : (⟨List.range (min n m), List.range (min n m)⟩ : Ans).Valid n m := by
+  refine ⟨by simp, by simp, List.nodup_range, List.nodup_range, ?_, ?_⟩ <;> intro x hx <;> simp at hx <;> omega
+
+-- [audit] non-vacuity: ALL hypotheses of `total_is_minimum` / `pairs_min_n_m` simultaneously on a complete `bool`
+-- table (the only type for which the matrix shown differs syntactically from the table), and the theorems applied.
+def exBoolSolve : Dense → Ans := fun _ => ⟨[0, 1], [1, 0]⟩
+
+theorem exBool_contract : SolverMeetsContractOn exBoolSolve exBool := by
+  intro p hp
+  have hprep : prepare exBool = .ok (some ⟨false, 0, .bool, "bool",
+      fun i j => if filledW exBool 0 i j ≠ 0 then (exBool.unit : Int) else 0⟩) := rfl
+  rw [hprep] at hp
+  simp only [Except.ok.injEq, Option.some.injEq] at hp
+  subst hp
+  exact validate_sound (by decide)
+
+theorem exBool_boolOK : BoolOK exBool := by
+  intro i j c h _
+  obtain ⟨r, hr, hc⟩ := cellOfRows_mem h
+  simp only [List.mem_cons, List.not_mem_nil, or_false] at hr
+  rcases hr with rfl | rfl <;> simp [B] at hc <;> rcases hc with h | h <;> subst h <;> decide
+
+-- [audit] `total_is_minimum` applied: reported total (0) ≤ total of the competing diagonal assignment (2)
+example :
+    (([⟨0, 1, .bool, 0⟩, ⟨1, 0, .bool, 0⟩] : List Pair).map (·.w)).sum
+      ≤ total (fun i j => ((exBool.cell i j).map (·.w)).getD 0) ⟨[0, 1], [0, 1]⟩ :=
+  total_is_minimum exBool_contract exBool_boolOK (by decide) (res := [⟨0, 1, .bool, 0⟩, ⟨1, 0, .bool, 0⟩]) rfl
+    (fun i j => ((exBool.cell i j).map (·.w)).getD 0) (fun i j c h => by simp [h]) ⟨[0, 1], [0, 1]⟩ (by decide)
+example : total (fun i j => ((exBool.cell i j).map (·.w)).getD 0) ⟨[0, 1], [0, 1]⟩ = 2 := by decide
+
+-- [audit] `pairs_min_n_m` applied
+example : ([⟨0, 1, .bool, 0⟩, ⟨1, 0, .bool, 0⟩] : List Pair).length = min exBool.n exBool.m :=
+  pairs_min_n_m exBool_contract.valid (by decide) (solve := exBoolSolve) rfl
+
 end Examples
 
 end GtModel.C15
